@@ -2634,7 +2634,8 @@ def remove_dead_ifs(source: str) -> str:
 
 @processing.fix
 def delete_commented_code(source: str) -> str:
-    matches = list(re.finditer(r"(?<![^\n])(\s*(#.*))+", source))
+    # A comment ends at the end of the physical line, and a bare carriage return ends a line, too
+    matches = list(re.finditer(r"(?<![^\n])(\s*(#[^\r\n]*))+", source))
     root = core.parse(source)
     code_ranges = [
         core.get_charnos(node, source)
